@@ -307,6 +307,12 @@ def const_values(p, expr, fn):
                 vals += const_values(p, v, f)
             elif kind == "assign" and isinstance(v, ast.IfExp):
                 vals += const_values(p, v.body, f) + const_values(p, v.orelse, f)
+            elif kind == "unpack" and isinstance(_, int) and value_alternatives(p, v, f) is not None:
+                for alt in value_alternatives(p, v, f):
+                    if isinstance(alt, (ast.Tuple, ast.List)) and len(alt.elts) > _ and not any(isinstance(x, ast.Starred) for x in alt.elts):
+                        vals += const_values(p, alt.elts[_], f)
+                    else:
+                        vals.append(None)
             elif kind == "unpack" and isinstance(_, int) and isinstance(v, ast.Attribute) and isinstance(v.value, ast.Name) and v.value.id in ("self", "cls"):
                 c = p.enclosing_class(f)
                 t = p.class_attr_const(c.name, v.attr) if c is not None else None
@@ -317,6 +323,65 @@ def const_values(p, expr, fn):
     if isinstance(expr, ast.IfExp):
         return const_values(p, expr.body, fn) + const_values(p, expr.orelse, fn)
     return [None]
+
+
+def value_alternatives(p, v, fn, depth=3):
+    """the expressions a table-selected value may be: `{k: a, ...}.get(key, d)` / `{...}[key]` / `a if c else b`, the table being a
+    dict display or a local / class-level name bound once to one; None when v has no such form"""
+    if depth < 0:
+        return None
+    if isinstance(v, (ast.Tuple, ast.List)):
+        return [v]
+    if isinstance(v, ast.IfExp):
+        a, b = value_alternatives(p, v.body, fn, depth - 1), value_alternatives(p, v.orelse, fn, depth - 1)
+        return None if a is None or b is None else a + b
+
+    def table(e):
+        if isinstance(e, ast.Dict):
+            return e
+        if isinstance(e, ast.Name) and fn is not None:
+            d = unique_def(fn, e.id)
+            if isinstance(d, ast.Dict):
+                return d
+            for (mod, name), _f in ():
+                pass
+            for mod, tree in p.trees.items():
+                for n in tree.body:
+                    if isinstance(n, ast.Assign) and any(isinstance(t, ast.Name) and t.id == e.id for t in n.targets) and isinstance(n.value, ast.Dict):
+                        return n.value
+        if isinstance(e, ast.Attribute) and isinstance(e.value, ast.Name) and e.value.id in ("self", "cls") and fn is not None:
+            c = p.enclosing_class(fn)
+            while c is not None:
+                for n in c.body:
+                    if isinstance(n, ast.Assign) and any(isinstance(t, ast.Name) and t.id == e.attr for t in n.targets) and isinstance(n.value, ast.Dict):
+                        return n.value
+                c = None
+        return None
+    if isinstance(v, ast.Call) and isinstance(v.func, ast.Attribute) and v.func.attr == "get" and v.args:
+        t = table(v.func.value)
+        if t is None:
+            return None
+        out = list(t.values)
+        out.append(v.args[1] if len(v.args) > 1 else ast.Constant(None))
+        res = []
+        for x in out:
+            alt = value_alternatives(p, x, fn, depth - 1)
+            res += alt if alt is not None else [x]
+        return res
+    if isinstance(v, ast.Subscript):
+        t = table(v.value)
+        if t is None:
+            return None
+        res = []
+        for x in t.values:
+            alt = value_alternatives(p, x, fn, depth - 1)
+            res += alt if alt is not None else [x]
+        return res
+    if isinstance(v, ast.Name) and fn is not None:
+        d = unique_def(fn, v.id)
+        if d is not None and not isinstance(d, ast.Name):
+            return value_alternatives(p, d, fn, depth - 1)
+    return None
 
 
 # ---------------------------------------------------------------- may-suspend
